@@ -18,6 +18,12 @@ pub fn cases(t: Tier) -> u64 {
 
 pub fn run(ctx: &Ctx, out: &mut CaseOut) {
     let mut r = Rng::for_case(ctx.prop, ctx.seed, ctx.k);
+    if ctx.k % 8 == 7 {
+        // closed goals over every built-in type constructor with analytically known truth values
+        out.count("fragment:constructor-zoo");
+        crate::props::c01::run_zoo(out, &mut r, "C02");
+        return;
+    }
     // non-increasing programs only: every derivation stays inside the goal's sub-terms, so the model is exact and the
     // solvers' limits are never reached.
     let cfg = GenCfg { coinductive_pct: if ctx.k % 3 == 0 { 40 } else { 0 }, ..Default::default() };
